@@ -142,6 +142,39 @@ def run(ck):
             paths = paths_of(prog, tha, max_paths=30)
             rets = [p for p in paths if p.outcome == "return"]
             ck.check(bool(rets), "C11.R3", cls + ".autoload:returns", asite, "autoload never returns: %s" % [str(p.value) for p in paths][:2])
+            # `location` is documented as "str or file": an open file can be read from its current position once; a second read of
+            # the same stream needs a rewind (seek(0)) in between, otherwise torch.load fails on the exhausted stream
+            def thfile(it):
+                loc = VUnknown("fileobj", "unknown")
+                loc.not_none = True
+                loc.has_attrs = {"read", "readline", "seek", "tell", "close", "write", "flush", "name", "mode"}
+                r = it.call_function(VFunc(af), [loc], {"gpu": VConst(False)}, None)
+                return r, loc
+
+            for p in [q for q in paths_of(prog, thfile, max_paths=30) if q.outcome == "return"]:
+                ev = []
+                for e in p.effects:
+                    if e.kind == "ext" and e.detail == "torch.load":
+                        ev.append(("read", e.site))
+                    elif e.kind == "ext-call" and isinstance(e.detail, tuple) and str(e.detail[1]).endswith(".seek"):
+                        ev.append(("seek", e.site))
+                reads = [c for c in p.interp.ext_calls if c[0] == "torch.load" and c[1] and c[1][0] is p.value[1]]
+                bad = None
+                seen_read = False
+                for k_, s_ in ev:
+                    if k_ == "read":
+                        if seen_read:
+                            bad = s_
+                            break
+                        seen_read = True
+                    else:
+                        seen_read = False
+                if len(reads) >= 2:
+                    ck.check(bad is None, "C11.R3", cls + ".autoload:a file object is read once, or rewound between reads [%s]" % _c(p), bad or asite,
+                             "the given location is passed to torch.load %d times without a rewind in between: with an open file (a documented kind of location) the second read starts at the end of "
+                             "the stream and fails, although save(file) and load(file) work" % len(reads), key="C11.R3|%s.autoload|stream-read-twice" % cls)
+                else:
+                    ck.ok("C11.R3", cls + ".autoload:a file object is read once, or rewound between reads [%s]" % _c(p), asite)
             for p in rets:
                 if True in cond_truths(p, lambda k: k[0] == "eq" and (k[1].is_zero() or k[2].is_zero()) and any("load[" in x for x in (k[1].syms() | k[2].syms()))):
                     continue  # stored size 0: degenerate file, outside the property
